@@ -580,10 +580,12 @@ def run_c03(chk, binary, sc, tier):
             if bad:
                 chk.violation("module file: %s attributed to module %r, the header says %r" % (bad[0][0], bad[0][1], want), dict(rep, attributions=got))
     texts = {recs[j["id"]]["text"] for j in jobs}
-    nlst = listener_validate(chk, binary, sc, recs, 100000)
+    nlst = listener_validate(chk, binary, sc, recs, 100000 if tier == "quick" else 15000)
     doc_model_check(chk, sc, tier)
-    nlst += doc_validate(chk, binary, sc, layout_docs(jobs[::4] if tier == "quick" else jobs, recs), "grammatical layouts")
-    lexer_validate(chk, binary, sc, [d for d in layout_docs(jobs[::4] if tier == "quick" else jobs, recs) if len(d["text"]) < 20000], "grammatical layouts")
+    # (trace validation of the whole listener and of the lexer: every fourth document at the quick tier, every second one - at most 12,000 - at the thorough tier)
+    tdocs = layout_docs(jobs[::4] if tier == "quick" else jobs[::2][:12000], recs)
+    nlst += doc_validate(chk, binary, sc, tdocs, "grammatical layouts")
+    lexer_validate(chk, binary, sc, [d for d in tdocs if len(d["text"]) < 20000], "grammatical layouts")
     chk.cov.update(traces_validated_against_impl=nlst, evaluations=len(jobs), distinct_nontrivial=len(texts), documents=len(jobs),
                    rule="documents = indexed family (3 name sets incl. keywords and dotted/dashed identifiers x model / deep model / module file x rewrite trees x position of the direct assignment x "
                         "redundant parentheses x restriction and condition variants); layouts = every single style dimension, every single local override on a block of documents, "
@@ -675,8 +677,9 @@ def run_c09(chk, binary, sc, tier):
         elif not p.get("errs"):
             chk.violation("rejected without an error value (%s)" % r["viol"], rep)
     doc_model_check(chk, sc, tier)
-    doc_validate(chk, binary, sc, layout_docs(jobs[::3] if tier == "quick" else jobs, recs), "catalogue violations")
-    lexer_validate(chk, binary, sc, [d for d in layout_docs(jobs[::3] if tier == "quick" else jobs, recs) if len(d["text"]) < 20000], "catalogue violations")
+    tdocs = layout_docs(jobs[::3] if tier == "quick" else jobs[::2][:12000], recs)
+    doc_validate(chk, binary, sc, tdocs, "catalogue violations")
+    lexer_validate(chk, binary, sc, [d for d in tdocs if len(d["text"]) < 20000], "catalogue violations")
     chk.cov.update(traces_validated_against_impl=len(jobs), evaluations=len(jobs), distinct_nontrivial=len({recs[j["id"]]["text"] for j in jobs}), per_violation=kinds,
                    rule="13 structural violations x injection sites (relation index, operand position, nesting depth 0-2, operator pair, rewrite shape of the duplicate, parameter index) x documents "
                         "(3 name sets, model / deep / module) + the same under random layouts; distinct by text")
